@@ -236,7 +236,8 @@ def m_to_string(ctx, args):
 
 
 # ---------------------------------------------------------------- curve / field primitives
-@model("group::Group::is_identity", "bls12_381::G1Affine::is_identity", "bls12_381::G2Affine::is_identity",
+@model("group::Group::is_identity", "group::prime::PrimeCurveAffine::is_identity", "group::prime::PrimeCurve::is_identity",
+       "group::cofactor::CofactorCurveAffine::is_identity", "bls12_381::G1Affine::is_identity", "bls12_381::G2Affine::is_identity",
        "bls12_381::G1Projective::is_identity", "bls12_381::G2Projective::is_identity")
 def m_is_identity(ctx, args):
     return ("b", ctx.eng.bdd.var(("is_identity", val(ctx, args[0]))))
@@ -889,6 +890,8 @@ def shape_len(eng, shape):
     if k == "range":
         if shape[1][0] == "int" and shape[2][0] == "int":
             return shape[2][1] - shape[1][1]
+        if shape[1] == ("int", 0) and shape[2][0] == "cparam":
+            return shape[2][1]           # 0..N for a const generic N
         return None
     if k in ("refs", "mutrefs", "vals"):
         return vec_len(eng, shape)
@@ -1043,6 +1046,118 @@ def m_take(ctx, args):
     return ("iter", ("take", a[1], nn)) if a[0] == "iter" else ("call", ctx.oq, (a, n))
 
 
+@model("std::iter::Iterator::for_each")
+def m_for_each(ctx, args):
+    """`it.for_each(f)` == `for e in it { f(e) }`: summarised exactly like an iterator-driven `for` loop whose body is
+    the closure (loop-carried cells = whatever the closure writes through its captures)."""
+    eng, st = ctx.eng, ctx.st
+    a = args[0]
+    if is_ref(a):
+        d = eng.deref_value(st, a)
+        a = d if d is not None else a
+    a = as_iter(ctx, a, 0)
+    if a[0] != "iter" or is_stream(a[1]):
+        return ("call", ctx.oq, tuple(args))
+    shape = a[1]
+    n = shape_len(eng, shape)
+    if isinstance(n, int) and n <= 8 and unrollable(shape):
+        for kk in range(n):
+            e, _ = elem_of(shape, 0)
+            sub = {("idx", 0): ("int", kk)}
+            for j, lf in enumerate(leaves_of(shape)):
+                sub[("elem", 0, j)] = eng.src_at(lf, ("int", kk))
+            call_closure(ctx, args[1], [instantiate_elem(eng, ctx, eng.subst(e, sub))])
+        return UNIT
+    from .sym import LoopInfo, UNDEF
+    uid = next(eng.nuid)
+    info = LoopInfo()
+    info.uid, info.kind, info.src, info.body, info.header = uid, "iter", shape, ctx.fr.body.id, -1
+    info.site = (ctx.fr.body.id, ctx.site, ctx.fr.callpath)
+    info.iter_cell, info.early, info.normal = None, [], []
+    eng.loops[uid] = info
+    pre = dict(st.store)
+    info.init_store = pre
+    nob, npan = len(eng.obligations), len(eng.panics)
+    M = set()
+    for _round in range(6):
+        st.store = dict(pre)
+        for c in M:
+            st.store[c] = ("lv", uid, c)
+        entry = dict(st.store)
+        del eng.obligations[nob:]
+        del eng.panics[npan:]
+        eng.binders.append(uid)
+        try:
+            e, _ = elem_of(shape, uid)
+            call_closure(ctx, args[1], [instantiate_elem(eng, ctx, e)])
+        finally:
+            eng.binders.pop()
+        newM = {c for c in pre if st.store.get(c, UNDEF) != entry.get(c, UNDEF)}
+        if newM <= M:
+            break
+        M |= newM
+    info.cells = sorted(M)
+    info.init = {c: pre.get(c, UNDEF) for c in M}
+    info.step = {c: st.store.get(c, UNDEF) for c in M}
+    info.back_pc = 1
+    out = dict(pre)
+    leaves = tuple(leaves_of(shape))
+    for c in M:
+        closed = eng.closed_push_loop(uid, c, info, M, n, leaves)
+        out[c] = closed if closed is not None else ("loopout", uid, c)
+    st.store = out
+    return UNIT
+
+
+@model("std::iter::Iterator::any", "std::iter::Iterator::all")
+def m_any_all(ctx, args):
+    """`it.any(p)` over a finite collection == the early-exit loop `for e in it { if p(e) { return true } } false`;
+    `it.all(p)` == !any(!p).  Built as the same `anyiter` atom an explicit loop produces."""
+    eng = ctx.eng
+    a = args[0]
+    if is_ref(a):
+        a = eng.deref_value(ctx.st, a)       # `any` / `all` take `&mut self` and run the iterator to the end
+    a = as_iter(ctx, a, 0) if a is not None else args[0]
+    if a[0] != "iter" or is_stream(a[1]):
+        return ("call", ctx.oq, tuple(args))
+    shape = a[1]
+    n = shape_len(eng, shape)
+    is_all = ctx.oq.endswith("::all")
+    if isinstance(n, int) and n <= 8 and unrollable(shape):
+        # literal collection: plain disjunction / conjunction
+        acc = 0
+        for kk in range(n):
+            e, _ = elem_of(shape, 0)
+            sub = {("idx", 0): ("int", kk)}
+            for j, lf in enumerate(leaves_of(shape)):
+                sub[("elem", 0, j)] = eng.src_at(lf, ("int", kk))
+            v = instantiate_elem(eng, ctx, eng.subst(e, sub))
+            c = eng.tobdd(call_closure(ctx, args[1], [v]))
+            if is_all:
+                c = eng.bdd.NOT(c)
+            acc = eng.bdd.OR(acc, c)
+        return ("b", eng.bdd.NOT(acc) if is_all else acc)
+    from .sym import LoopInfo
+    uid = next(eng.nuid)
+    info = LoopInfo()
+    info.uid, info.kind, info.src, info.body, info.header = uid, "iter", shape, ctx.fr.body.id, -1
+    info.site = (ctx.fr.body.id, ctx.site, ctx.fr.callpath)
+    info.init_store, info.iter_cell, info.early, info.normal = ctx.st.store, None, [], []
+    eng.loops[uid] = info
+    e, _ = elem_of(shape, uid)
+    eng.binders.append(uid)
+    try:
+        v = instantiate_elem(eng, ctx, e)
+        c = eng.tobdd(call_closure(ctx, args[1], [v]))
+    finally:
+        eng.binders.pop()
+    if is_all:
+        c = eng.bdd.NOT(c)
+    info.early = [(c, "any")]
+    atom = eng.bdd.var(("anyiter", uid, ("b", c)))
+    return ("b", eng.bdd.NOT(atom) if is_all else atom)
+
+
 @model("core::slice::chunks_exact", "core::slice::chunks")
 def m_chunks(ctx, args):
     v, _, _ = array_like(ctx, args[0])
@@ -1165,7 +1280,11 @@ def m_into_inner(ctx, args):
 
 @model("arrayvec::ArrayVec::new")
 def m_arrayvec_new(ctx, args):
-    return ("arrayvec", ("array", ()), None)
+    dst = ctx.dest_ty()
+    cap = None
+    if dst is not None and dst[0] == "adt" and dst[1].endswith("ArrayVec") and len(dst[2]) > 1 and dst[2][1][0] == "const":
+        cap = dst[2][1][1]
+    return ("arrayvec", ("array", ()), cap)
 
 
 def _slice_obligation(ctx, v, lo, hi):
@@ -1361,6 +1480,11 @@ def m_arrayvec_push(ctx, args):
         "kind": "PushFull", "pc": ctx.st.pc, "cond": None, "expected": None, "ops": [val(ctx, args[0])], "what": ctx.oq,
         "site": ctx.site, "ln": ctx.term["ln"], "callpath": ctx.fr.callpath, "exp": ctx.term["exp"]})
     old = val(ctx, args[0])
+    if old[0] == "arrayvec" and old[1][0] == "array" and isinstance(old[2] if len(old) > 2 else None, int) and len(old[1][1]) < old[2]:
+        # literal contents below capacity: the push cannot fail and the contents stay literal
+        ctx.eng.obligations.pop()
+        ctx.eng.write_ref(ctx.st, args[0], ("arrayvec", ("array", old[1][1] + (args[-1],)), old[2]))
+        return UNIT
     ctx.eng.write_ref(ctx.st, args[0], ("pushed", old, args[-1]))
     return UNIT
 
